@@ -234,6 +234,7 @@ type replayDoc struct {
 	Command    string            `json:"command"`
 	Outcome    string            `json:"native_outcome,omitempty"`
 	Trace      []string          `json:"symbolic_branch_trace,omitempty"`
+	Internal   map[string]string `json:"internal_values,omitempty"`
 }
 
 func writeReplay(prop string, ob *sx.Obligation, f *sx.Finding, n int, bi *buildInfo) (string, *replayDoc) {
@@ -241,9 +242,11 @@ func writeReplay(prop string, ob *sx.Obligation, f *sx.Finding, n int, bi *build
 	os.MkdirAll(dir, 0o755)
 	path := filepath.Join(dir, fmt.Sprintf("%s-%s-%d.json", prop, ob.Name, n))
 	vals := map[string]string{}
+	internal := map[string]string{}
 	for k, v := range f.Model {
 		if strings.Contains(k, "!") {
-			continue // internal fresh variables have no native counterpart
+			internal[k] = v.RatString() // internal fresh variables have no native counterpart
+			continue
 		}
 		vals[k] = v.RatString()
 	}
@@ -255,7 +258,7 @@ func writeReplay(prop string, ob *sx.Obligation, f *sx.Finding, n int, bi *build
 		pkg = "./" + ob.Pkg
 	}
 	doc := &replayDoc{Property: prop, Obligation: ob.Name, Harness: ob.Func, Pkg: pkg, Label: f.Label, Kind: f.Kind,
-		Msg: f.Msg, Pos: f.Pos, Solver: f.Solver, Values: vals, Trace: f.Trace,
+		Msg: f.Msg, Pos: f.Pos, Solver: f.Solver, Values: vals, Internal: internal, Trace: f.Trace,
 		Command: fmt.Sprintf("cd %s && VP_REPLAY=%s go test -v -vet=off -count=1 -run '^TestVPReplay$' -overlay %s %s", repoDir, path, bi.overlayJSON, pkg)}
 	b, _ := json.MarshalIndent(doc, "", " ")
 	os.WriteFile(path, b, 0o644)
